@@ -56,7 +56,7 @@ Fixpoint spec (e : expr) : option sval :=
   | ESym n => Some (None, [(ASym n, [])])
   | EText ps => option_map (sctor None) (mapO spec ps)
   | ETag n ps => option_map (sctor (Some (MTag (canon_name n)))) (mapO spec ps)
-  | EHRef u x ps => option_map (sctor (Some (MHRef u false))) (mapO spec ps)
+  | EHRef u x ps => option_map (sctor (Some (MHRef u x))) (mapO spec ps)
   | EProt ps => option_map (sctor (Some MProt)) (mapO spec ps)
   | EUpper a => option_map (fun r : sval => (fst r, map (conv_pair true) (snd r))) (spec a)
   | ELower a => option_map (fun r : sval => (fst r, map (conv_pair false) (snd r))) (spec a)
